@@ -71,6 +71,7 @@ BUILTINS = {
     "PB": PB,
     "PA2": PA2,
     "PLen": PLen,
+    "ABCMeta": abc.ABCMeta,
 }
 
 
